@@ -69,7 +69,7 @@ def decode_read(res, mode, block):
 
 
 def scenario_factory(nops, modes, separate_reader=False, planted=None, ops=None, sizes_opts=(1, 2), prewrites=(0,), pre_increasing=False):
-    OPS = ops or ['write_ts', 'write_clock', 'read', 'read_block', 'read_all', 'extdel', 'reopen']
+    OPS = ops or ['write_ts', 'write_clock', 'read', 'read_block', 'read_all', 'extdel', 'reopen', 'seek_tell']
     def scenario(e):
         mode = modes[e.choice('mode', len(modes))] if len(modes) > 1 else modes[0]
         fs, now = setup(e, mode)
@@ -227,12 +227,12 @@ def harnesses(tier):
     hs = [
         Harness('c13.same_object', scenario_factory(4, ['bin', 'txt'] if q else ['bin', 'binl', 'txt', 'json']),
                 twin=scenario_factory(2, ['bin'], planted='oracle'),
-                bounds={'operations': 4, 'op kinds': 'write(ts) write(clock) read read_block read-all external-delete close+reopen(seek tell)', 'modes': 'bin,txt' if q else 'all four',
+                bounds={'operations': 4, 'op kinds': 'write(ts) write(clock) read read_block read-all external-delete close+reopen(seek tell) seek(tell())', 'modes': 'bin,txt' if q else 'all four',
                         'file_size': 'unbounded Int >= 1', 'total_size': 'unbounded Int >= 1', 'timestamps': 'unbounded Int microseconds, equal and decreasing allowed'},
                 functions=fn, stubs=stubs, assumptions=assume, real_replay=real_replay, budget_s=400 if q else 2400),
-        Harness('c13.separate_reader', scenario_factory(3 if q else 4, ['txt'], separate_reader=True, prewrites=(0,) if q else (0, 2),
+        Harness('c13.separate_reader', scenario_factory(4, ['txt'], separate_reader=True, prewrites=(0,) if q else (0, 2),
                                                         ops=['write_ts', 'read', 'read_all', 'read_block', 'extdel', 'reopen', 'refresh']),
-                bounds={'initial writes': 0 if q else '0 or 2', 'operations after them': 3 if q else 4, 'reader': 'separate read-only RollLog with autorefresh', 'modes': 'txt'},
+                bounds={'initial writes': 0 if q else '0 or 2', 'operations after them': 4, 'reader': 'separate read-only RollLog with autorefresh', 'modes': 'txt'},
                 functions=fn, stubs=stubs, assumptions=assume, real_replay=real_replay, budget_s=400 if q else 2400),
     ]
     hs.append(Harness('c13.catch_up', scenario_factory(3 if q else 4, ['txt'], prewrites=(3,), pre_increasing=True,
